@@ -180,7 +180,7 @@ void generate(uint64_t seed, const Str& profile, Desc& d, bool exceptions) {
                     unsigned x = (unsigned)world.below(10);
                     if (x < 5) { o.kind = K_ALLOC; o.a = (int64_t)world.below(bigLeaks ? N_SLOTS : 12); o.b = (int64_t)world.below(5); o.c = world.chance(1, bigLeaks ? 6 : 40) ? world.range(65, 3000) : world.small(1, 64); }
                     else if (x < (bigLeaks ? 6u : 8u)) { o.kind = K_FREE; o.a = (int64_t)world.below(bigLeaks ? N_SLOTS : 12); }
-                    else if (x < 9) { o.kind = K_REALLOC; o.a = (int64_t)world.below(bigLeaks ? N_SLOTS : 12); o.c = world.small(1, 64); }
+                    else if (x < 9) { o.kind = K_REALLOC; o.a = (int64_t)world.below(bigLeaks ? N_SLOTS : 12); o.c = world.small(1, 64); if (world.chance(1, 6)) o.b = 1; }
                     else if (ph == 0 || world.chance(1, 2)) { if (world.chance(3, 4)) { o.kind = K_EXPECT_LEAKS; o.a = (int64_t)world.below(5); } else o.kind = K_IGNORE_LEAKS; }
                     else o.kind = K_MARK;
                 }
